@@ -562,6 +562,20 @@ def product_task(prop, name, srclines, gap_bits=23, k_bits=34, max_paths=600):
                     else:
                         res.oblig(True if r == z3.unsat else None, 'unknown %s %s' % (tag, oname))
                 continue
+            # C04: pc-relative transfers and label values are retargeted to the same labels:
+            # the compressed image must satisfy the C03 / C08 obligations in its own layout
+            class _P:
+                notes = b['notes']
+            for sub in ('C03', 'C08'):
+                for oname, ob in obligations(sub, t, _P, b['val'], True):
+                    if oname.startswith('label table'):
+                        continue
+                    r = q(*joint, z3.Not(ob))
+                    if r == z3.sat:
+                        report('with -c: ' + oname, b, 'with -c the program no longer satisfies: ' + oname,
+                               lambda ro, rc: rc[0] == 'ok' and not _concrete_obligations_hold(sub, t, rc, b['notes'], s.model()))
+                    else:
+                        res.oblig(True if r == z3.unsat else None, 'unknown %s %s' % (tag, oname))
             # C04: data identical, literal instructions same effect
             for i, l in enumerate(t.lines, 1):
                 ea, eb = wa.per_line.get(i), wb.per_line.get(i)
@@ -614,6 +628,21 @@ def product_task(prop, name, srclines, gap_bits=23, k_bits=34, max_paths=600):
                                    jointly_feasible_pairs=n_pairs))
     res['functions'] = prof.names()
     return res
+
+
+def _concrete_obligations_hold(prop, t, real, notes, mdl):
+    _, out, labels, consts, chunks = real
+    blobs = [_CB(n, d) for n, d in chunks]
+
+    class FakePath:
+        pass
+    FakePath.notes = dict(constants={k: core.concrete(v, mdl) for k, v in notes['constants'].items()},
+                          markers={k: core.concrete(v, mdl) for k, v in notes['markers'].items()})
+    sv = z3.Solver()
+    for name, ob in obligations(prop, t, FakePath, (out, labels, consts, blobs), True):
+        if sv.check(z3.Not(ob)) != z3.unsat:
+            return False
+    return True
 
 
 def _lines_same_effect(da, db):
